@@ -71,3 +71,12 @@ def rich_is_type_of(is_type_of_factory):
                 t.is_type_of = is_type_of_factory(name)
         _cache[key] = s
     return _cache[key]
+
+
+def rich_inc_is_type_of(is_type_of_factory):
+    """rich_is_type_of plus the experimental directives (for the incremental checks)."""
+    key = ('rich_inc_is_type_of', id(is_type_of_factory))
+    if key not in _cache:
+        _cache[key] = with_incremental(rich_is_type_of(is_type_of_factory))
+        # with_incremental rebuilds the schema from to_kwargs(): the type objects (and their is_type_of) are shared
+    return _cache[key]
